@@ -108,6 +108,21 @@ def make_atomizer(subst, env):
                         and len(t.args) == 2 and name_is(t.args[0], getattr(g.generators[0].target, 'id', None))
                         and name_is(t.args[1], 'str') and nm(g.generators[0].iter)):
                     return (f'NonStr({nm(g.generators[0].iter)})', False)
+        # range-check spellings of "every index is a valid column": max(x) >= n / max(x) < n / min(x) < 0 / min(x) >= 0
+        if isinstance(n, ast.Compare) and len(n.ops) == 1:
+            l, r, op = n.left, n.comparators[0], type(n.ops[0])
+            flip = {ast.Lt: ast.Gt, ast.Gt: ast.Lt, ast.LtE: ast.GtE, ast.GtE: ast.LtE}
+            for a, b, o in ((l, r, op), (r, l, flip.get(op))):
+                if isinstance(a, ast.Call) and isinstance(a.func, ast.Name) and a.func.id in ('max', 'min') and len(a.args) == 1 and nm(a.args[0]) and o:
+                    x = nm(a.args[0])
+                    if a.func.id == 'max' and o in (ast.GtE, ast.Lt) and (nm(b) or _len_of(b) is not None):
+                        bound = nm(b) or f'len({nm(_len_of(b))})'
+                        return (f'MaxGE({x},{bound})', o is ast.GtE)
+                    if a.func.id == 'max' and o in (ast.Gt, ast.LtE) and (nm(b) or _len_of(b) is not None):
+                        bound = nm(b) or f'len({nm(_len_of(b))})'
+                        return (f'MaxGT({x},{bound})', o is ast.Gt)
+                    if a.func.id == 'min' and const(b, 'x') == 0 and o in (ast.Lt, ast.GtE):
+                        return (f'MinNeg({x})', o is ast.Lt)
         # set(a) & set(b)  (truthy = overlap)
         if isinstance(n, ast.BinOp) and isinstance(n.op, ast.BitAnd):
             a, b = _set_of(n.left, env), _set_of(n.right, env)
@@ -461,17 +476,44 @@ def fromdict_rules(model, R):
             dup = f'HasDup({r})'
             idx_name = make_set.params[1] if len(make_set.params) > 1 else 'indexes'
             sub = f'NotSubset({res},{idx_name})'
-            want = [dup, sub]
+            empty = f'Empty({res})'
+            maxge = [a for a in used if a.startswith(f'MaxGE({res},')]
+            maxgt = [a for a in used if a.startswith(f'MaxGT({res},')]
+            minneg = f'MinNeg({res})'
+            want = [dup, sub, empty, minneg] + maxge + maxgt
             stray = [a for a in used if a not in want]
             if stray:
-                R.bad('GUARD', make_set, make_set.node, 'row guards', ' or '.join(want), 'stray: ' + ', '.join(stray))
+                R.bad('GUARD', make_set, make_set.node, 'row guards', ' or '.join([dup, sub]), 'stray: ' + ', '.join(stray))
+            if maxgt:
+                R.bad('GUARD', make_set, make_set.node, 'row range check bound', 'max(row) >= number of columns (index n is out of range)',
+                      'max(row) > n: an index equal to the column count is accepted')
             rej = guards.Formula(lambda e: any(f(e) for f in fs), used, ' or '.join(f.text for f in fs))
-            diff = guards.equivalent(rej, lambda e: e[dup] or e[sub], want)
+            mg = maxge[0] if maxge else 'MaxGE(?)'
+
+            def constraint(e):
+                # out of range  <=>  non-empty and (largest too big or smallest negative); an empty row has neither
+                out = (not e.get(empty, False)) and (e.get(mg, False) or e.get(minneg, False))
+                if e.get(empty, False) and (e.get(mg, False) or e.get(minneg, False)):
+                    return False
+                return e.get(sub, out) == out if (sub in e and (mg in e or minneg in e)) else True
+
+            def spec(e):
+                out = e[sub] if sub in e and not (maxge or minneg in used) else ((not e.get(empty, False)) and (e.get(mg, False) or e.get(minneg, False)))
+                return e[dup] or out
+            atoms = [dup] + ([sub] if not (maxge or minneg in used) else [empty, mg, minneg])
+            diff = guards.equivalent(rej, spec, atoms, constraint=constraint)
             R.check(diff is None and res is not None, 'GUARD', make_set, make_set.node,
-                    'row rejected iff repeated or out-of-range column index', f'len(set(r)) != len(r) or not set(r) <= range(len(properties))',
-                    rej.text, extra={'differs_at': diff})
+                    'row rejected iff repeated or out-of-range column index', 'len(set(r)) != len(r) or not set(r) <= range(len(properties))',
+                    rej.text, extra={'differs_at': diff, 'reading': 'MinNeg = a negative index, MaxGE = an index >= the column count'} if diff else None)
+            if maxge:
+                bound = maxge[0][len(f'MaxGE({res},'):-1]
+                bdef = make_set.defaults().get(bound)
+                btext = src(bdef) if bdef is not None else bound
+                R.check('len(' in btext and (v_prop in btext or 'indexes' in btext), 'GUARD', make_set, make_set.node, 'range bound is the number of columns',
+                        f'len({v_prop})', btext)
             # the index universe: default ``indexes=set(indexes)`` with indexes = tuple(range(len(properties)))
             dflt = make_set.defaults().get(idx_name)
+            subset_idiom = sub in used
             universe = None
             for s in func.body:
                 if isinstance(s, ast.Assign) and isinstance(s.targets[0], ast.Name) and s.targets[0].id == idx_name:
@@ -482,7 +524,8 @@ def fromdict_rules(model, R):
             ok = (isinstance(inner, ast.Call) and name_is(inner.func, 'range') and len(inner.args) == 1
                   and _len_of(inner.args[0]) is not None and name_is(_len_of(inner.args[0]), v_prop)
                   and dflt is not None and (name_is(dflt, idx_name) or _wraps(dflt, idx_name)))
-            R.check(ok, 'GUARD', func, universe or func.node, 'valid column indexes are range(len(properties))',
+            if subset_idiom:
+              R.check(ok, 'GUARD', func, universe or func.node, 'valid column indexes are range(len(properties))',
                     f'{idx_name} = tuple(range(len({v_prop})))', src(universe))
         # applied to every row, and the cells rebuilt by membership
         applied = [n for n in walk(func.body) if isinstance(n, ast.Call) and name_is(n.func, 'map') and len(n.args) == 2
